@@ -886,3 +886,241 @@ Proof. destruct st as [[absent s] bs]. destruct ost as [[[oa op] orr] spec]. int
   - unfold st_rel, onext20. rewrite C4, C5, map_length. split; [reflexivity|]. split; [reflexivity|]. split; [symmetry; exact C6|exact Hspec].
   - exact C7.
   - unfold sessions_distinct. rewrite C10. exact Hnd. Qed.
+
+(* ---- grow / add / remove ---- *)
+Lemma find_os_map id : forall l, find_os id (map oslot_of l) = option_map oslot_of (find_slot id l).
+Proof. induction l as [|sl r IH]; [reflexivity|]. cbn [map find_os find_slot].
+  assert (E : os_id (oslot_of sl) = slot_id sl) by (destruct sl as [[[[[? ?] ?] ?] ?] ?]; reflexivity). rewrite E.
+  destruct (slot_id sl =? id); [reflexivity|exact IH]. Qed.
+
+Lemma remove_first_map id : forall l,
+  remove_first (fun x => os_id x =? id) (map oslot_of l) = map oslot_of (remove_first (fun x => slot_id x =? id) l).
+Proof. induction l as [|sl r IH]; [reflexivity|]. cbn [map remove_first].
+  assert (E : os_id (oslot_of sl) = slot_id sl) by (destruct sl as [[[[[? ?] ?] ?] ?] ?]; reflexivity). rewrite E.
+  destruct (slot_id sl =? id); [reflexivity|]. cbn [map]. rewrite IH. reflexivity. Qed.
+
+Lemma map_os_map id (f : slot -> slot) (g : oslot -> oslot) : (forall sl, oslot_of (f sl) = g (oslot_of sl)) ->
+  forall l, map_os id g (map oslot_of l) = map oslot_of (map_slot id f l).
+Proof. intros H. induction l as [|sl r IH]; [reflexivity|]. cbn [map map_os map_slot].
+  assert (E : os_id (oslot_of sl) = slot_id sl) by (destruct sl as [[[[[? ?] ?] ?] ?] ?]; reflexivity). rewrite E.
+  destruct (slot_id sl =? id); cbn [map]; [rewrite H; reflexivity|rewrite IH; reflexivity]. Qed.
+
+Lemma find_slot_some id : forall l sl, find_slot id l = Some sl -> In sl l /\ slot_id sl = id.
+Proof. induction l as [|x r IH]; intros sl H; [discriminate|]. cbn [find_slot] in H. destruct (slot_id x =? id) eqn:E.
+  - inversion H; subst. split; [left; reflexivity|lia].
+  - destruct (IH sl H). split; [right; assumption|assumption]. Qed.
+
+Lemma remove_first_perm id : forall l sl, find_slot id l = Some sl ->
+  Permutation l (sl :: remove_first (fun x => slot_id x =? id) l).
+Proof. induction l as [|x r IH]; intros sl H; [discriminate|]. cbn [find_slot remove_first] in *. destruct (slot_id x =? id).
+  - inversion H; subst. apply Permutation_refl.
+  - eapply perm_trans; [apply perm_skip; apply IH; exact H|apply perm_swap]. Qed.
+
+(* the invariant only depends on the multiset of slots, apart from the images being open *)
+Lemma st_inv_perm nslots absent imgs rr bs absent2 imgs2 rr2 bs2 :
+  st_inv nslots (absent, mkSub imgs rr, bs) -> Permutation (absent ++ imgs) (absent2 ++ imgs2) ->
+  Forall (fun sl => im_closed (slot_image sl) = false) imgs2 -> 0 <= rr2 ->
+  st_inv nslots (absent2, mkSub imgs2 rr2, bs2).
+Proof. intros (H1 & H2 & H3 & H4 & H5) Hp Ho Hr. cbn [s_images s_rr] in *. unfold st_inv. cbn [s_images s_rr].
+  split; [eapply Permutation_Forall; eassumption|]. split; [assumption|].
+  split; [eapply Permutation_NoDup; [apply Permutation_map; eassumption|assumption]|].
+  split; [eapply Permutation_Forall; eassumption|assumption]. Qed.
+
+Lemma sessions_perm (a b : list slot) : Permutation a b -> NoDup (map slot_session a) -> NoDup (map slot_session b).
+Proof. intros Hp H. eapply Permutation_NoDup; [apply Permutation_map; eassumption|assumption]. Qed.
+
+(* positions only look at ids and images *)
+Lemma find_slot_perm id : forall a b, Permutation a b -> NoDup (map slot_id a) ->
+  option_map (fun sl => im_pos (slot_image sl)) (find_slot id a) = option_map (fun sl => im_pos (slot_image sl)) (find_slot id b).
+Proof. intros a b Hp Hnd.
+  assert (Hb : NoDup (map slot_id b)) by (eapply Permutation_NoDup; [apply Permutation_map; eassumption|assumption]).
+  destruct (find_slot id a) as [sl|] eqn:Ea.
+  - apply find_slot_some in Ea as [Hin Hid]. subst id. rewrite (find_slot_in b sl Hb); [reflexivity|]. eapply Permutation_in; eassumption.
+  - destruct (find_slot id b) as [sl|] eqn:Eb; [|reflexivity]. apply find_slot_some in Eb as [Hin Hid]. subst id.
+    rewrite (find_slot_in a sl Hnd) in Ea; [discriminate|]. eapply Permutation_in; [apply Permutation_sym; eassumption|assumption]. Qed.
+
+Lemma positions_ext all1 all2 : (forall id, option_map (fun sl => im_pos (slot_image sl)) (find_slot id all1)
+                                        = option_map (fun sl => im_pos (slot_image sl)) (find_slot id all2)) ->
+  forall n id0, positions n id0 all1 = positions n id0 all2.
+Proof. intros H. induction n; intros id0; [reflexivity|]. cbn [positions]. rewrite IHn. f_equal.
+  specialize (H id0). destruct (find_slot id0 all1); destruct (find_slot id0 all2); cbn in H; congruence. Qed.
+
+(* no poll: nothing handed over, nothing moves *)
+Lemma idle_judged nslots absent imgs (ost_spec : builders) rr o (all' : list slot) :
+  (match o with SPoll _ | SCPoll _ _ _ | SBlock _ => False | _ => True end) ->
+  NoDup (map slot_session (absent ++ imgs)) ->
+  (forall sl, In sl (absent ++ imgs) -> pos_at (positions nslots 0 all') (slot_id sl) = im_pos (slot_image sl)) ->
+  judge_sop (map oslot_of absent, map oslot_of imgs, rr, ost_spec) o (Ok 0, [], [], positions nslots 0 all') = true.
+Proof. intros Ho Hnd Hps. cbn [judge_sop]. rewrite (sessions_ok_true absent imgs Hnd). cbn [negb].
+  rewrite (unmoved_same _ absent) by (intros; apply Hps; apply in_or_app; left; assumption).
+  assert (Hu : unmoved (map oslot_of imgs) (positions nslots 0 all') = true)
+    by (apply unmoved_same; intros; apply Hps; apply in_or_app; right; assumption).
+  destruct o; try destruct Ho; cbn [out_eqb andb]; rewrite Hu; reflexivity. Qed.
+
+Lemma map_slot_ids id f : (forall sl, slot_id (f sl) = slot_id sl) -> forall l, map slot_id (map_slot id f l) = map slot_id l.
+Proof. intros H. induction l as [|x r IH]; [reflexivity|]. cbn [map_slot]. destruct (slot_id x =? id); cbn [map]; [rewrite H; reflexivity|rewrite IH; reflexivity]. Qed.
+
+Lemma map_slot_sessions id f : (forall sl, slot_session (f sl) = slot_session sl) -> forall l, map slot_session (map_slot id f l) = map slot_session l.
+Proof. intros H. induction l as [|x r IH]; [reflexivity|]. cbn [map_slot]. destruct (slot_id x =? id); cbn [map]; [rewrite H; reflexivity|rewrite IH; reflexivity]. Qed.
+
+Lemma map_slot_Forall (P : slot -> Prop) id f : (forall sl, P sl -> P (f sl)) -> forall l, Forall P l -> Forall P (map_slot id f l).
+Proof. intros H. induction 1 as [|x r Hx Hr IH]; [constructor|]. cbn [map_slot]. destruct (slot_id x =? id); constructor; auto. Qed.
+
+Lemma map_slot_in id f : forall l sl, In sl l -> In sl (map_slot id f l) \/ In (f sl) (map_slot id f l).
+Proof. induction l as [|x r IH]; intros sl H; [destruct H|]. cbn [map_slot]. destruct (slot_id x =? id).
+  - destruct H as [->|H]; [right; left; reflexivity|left; right; assumption].
+  - destruct H as [->|H]; [left; left; reflexivity|]. destruct (IH sl H); [left; right; assumption|right; right; assumption]. Qed.
+
+Lemma slot_grow_facts sl j :
+  slot_id (slot_grow sl j) = slot_id sl /\ slot_session (slot_grow sl j) = slot_session sl /\
+  slot_image (slot_grow sl j) = slot_image sl /\ oslot_of (slot_grow sl j) = os_grow (oslot_of sl) j /\
+  (slot_ok sl -> slot_ok (slot_grow sl j)).
+Proof. destruct sl as [[[[[id bits] init] se] sg] im].
+  split; [reflexivity|]. split; [reflexivity|]. split; [reflexivity|]. split; [reflexivity|].
+  intros (Hb & Hs & Hsg). cbn [slot_grow slot_ok]. split; [assumption|]. split; [assumption|].
+  destruct sg as [[[[n off] vis] claim] fs]. cbn [grow_seg]. rewrite Z.eqb_refl. exact Hsg. Qed.
+
+Theorem sgrow_step m nslots ost st id j :
+  st_rel ost st -> st_inv nslots st -> sessions_distinct st ->
+  let '(ob, st') := sstep m nslots st (SGrow id j) in
+  judge_sop ost (SGrow id j) ob = true /\ st_rel (onext20 ost (SGrow id j) ob) st' /\ st_inv nslots st' /\ sessions_distinct st'.
+Proof. destruct st as [[absent s] bs]. destruct ost as [[[oa op] orr] spec]. intros (-> & -> & -> & Hspec) Hinv Hnd.
+  unfold sessions_distinct in Hnd. cbn [sstep all_slots s_images s_rr].
+  set (g := fun sl => slot_grow sl j).
+  destruct Hinv as (H1 & H2 & H3 & H4 & H5).
+  assert (Hinv' : st_inv nslots (map_slot id g absent, mkSub (map_slot id g (s_images s)) (s_rr s), bs)).
+  { unfold st_inv. cbn [s_images s_rr]. rewrite Forall_app in H1, H4. destruct H1 as [H1a H1b]. destruct H4 as [H4a H4b].
+    split; [apply Forall_app; split; apply map_slot_Forall; auto; intros sl; apply (slot_grow_facts sl j)|].
+    split; [apply map_slot_Forall; [|assumption]; intros sl Hsl; unfold g; rewrite (proj1 (proj2 (proj2 (slot_grow_facts sl j)))); assumption|].
+    split; [rewrite map_app, !map_slot_ids, <- map_app by (intros sl; apply (slot_grow_facts sl j)); assumption|].
+    split; [|assumption]. apply Forall_app. split; apply map_slot_Forall; auto; intros sl Hsl; unfold g; rewrite (proj1 (slot_grow_facts sl j)); assumption. }
+  set (all' := map_slot id g absent ++ map_slot id g (s_images s)).
+  assert (Hps : forall sl, In sl (absent ++ s_images s) -> pos_at (positions nslots 0 all') (slot_id sl) = im_pos (slot_image sl)).
+  { intros sl Hsl. destruct Hinv' as (_ & _ & I3 & I4 & _). cbn [s_images] in I3, I4. fold all' in I3, I4.
+    assert (Hcase : In sl all' \/ In (g sl) all').
+    { apply in_app_or in Hsl as [Hsl|Hsl]; destruct (map_slot_in id g _ sl Hsl); [left|right|left|right]; apply in_or_app; auto. }
+    rewrite Forall_forall in I4. destruct Hcase as [Hc|Hc].
+    - apply pos_at_positions; auto.
+    - pose proof (pos_at_positions nslots all' (g sl) I3 Hc (I4 _ Hc)) as Hp. unfold g in Hp.
+      rewrite (proj1 (slot_grow_facts sl j)), (proj1 (proj2 (proj2 (slot_grow_facts sl j)))) in Hp. exact Hp. }
+  split; [|split; [|split]].
+  - apply idle_judged; [exact I|assumption|exact Hps].
+  - unfold st_rel, onext20. cbn [s_images s_rr].
+    rewrite (update_positions_same _ absent) by (intros; apply Hps; apply in_or_app; left; assumption).
+    rewrite (update_positions_same _ (s_images s)) by (intros; apply Hps; apply in_or_app; right; assumption).
+    rewrite !(map_os_map id g (fun o => os_grow o j)) by (intros sl; apply (slot_grow_facts sl j)). repeat split; auto.
+  - exact Hinv'.
+  - unfold sessions_distinct. cbn [s_images]. rewrite map_app, !map_slot_sessions, <- map_app by (intros sl; apply (slot_grow_facts sl j)). exact Hnd. Qed.
+
+Lemma positions_perm nslots a b : Permutation a b -> NoDup (map slot_id a) -> positions nslots 0 a = positions nslots 0 b.
+Proof. intros Hp Hnd. apply positions_ext. intros id. apply find_slot_perm; assumption. Qed.
+
+Lemma positions_head nslots x y l : slot_id x = slot_id y -> im_pos (slot_image x) = im_pos (slot_image y) ->
+  positions nslots 0 (x :: l) = positions nslots 0 (y :: l).
+Proof. intros Hi Hp. apply positions_ext. intros id. cbn [find_slot]. rewrite Hi. destruct (slot_id y =? id); cbn [option_map]; congruence. Qed.
+
+Lemma st_inv_positions nslots absent s bs :
+  st_inv nslots (absent, s, bs) ->
+  forall sl, In sl (absent ++ s_images s) -> pos_at (positions nslots 0 (absent ++ s_images s)) (slot_id sl) = im_pos (slot_image sl).
+Proof. intros (_ & _ & H3 & H4 & _) sl Hsl. apply pos_at_positions; auto. rewrite Forall_forall in H4. auto. Qed.
+
+Theorem sadd_step m nslots ost st id :
+  st_rel ost st -> st_inv nslots st -> sessions_distinct st ->
+  let '(ob, st') := sstep m nslots st (SAdd id) in
+  judge_sop ost (SAdd id) ob = true /\ st_rel (onext20 ost (SAdd id) ob) st' /\ st_inv nslots st' /\ sessions_distinct st'.
+Proof. destruct st as [[absent s] bs]. destruct ost as [[[oa op] orr] spec]. intros (-> & -> & -> & Hspec) Hinv Hnd.
+  unfold sessions_distinct in Hnd. cbn [sstep]. pose proof (st_inv_positions _ _ _ _ Hinv) as Hps.
+  assert (Hsame : judge_sop (map oslot_of absent, map oslot_of (s_images s), s_rr s, spec) (SAdd id)
+                    (Ok 0, [], [], positions nslots 0 (absent ++ s_images s)) = true)
+    by (apply idle_judged; [exact I|assumption|exact Hps]).
+  assert (Hupd_a : update_positions (map oslot_of absent) (positions nslots 0 (absent ++ s_images s)) = map oslot_of absent)
+    by (apply update_positions_same; intros; apply Hps; apply in_or_app; left; assumption).
+  assert (Hupd_p : update_positions (map oslot_of (s_images s)) (positions nslots 0 (absent ++ s_images s)) = map oslot_of (s_images s))
+    by (apply update_positions_same; intros; apply Hps; apply in_or_app; right; assumption).
+  destruct (find_slot id absent) as [sl|] eqn:Ef.
+  2:{ cbn [all_slots]. split; [exact Hsame|]. split; [|split; assumption].
+      unfold st_rel, onext20. rewrite Hupd_a, Hupd_p, find_os_map, Ef. cbn [option_map]. repeat split; auto. }
+  destruct (im_closed (slot_image sl)) eqn:Ec.
+  { cbn [all_slots]. split; [exact Hsame|]. split; [|split; assumption].
+    unfold st_rel, onext20. rewrite Hupd_a, Hupd_p, find_os_map, Ef. cbn [option_map].
+    assert (os_removed (oslot_of sl) = true) by (destruct sl as [[[[[? ?] ?] ?] ?] ?]; exact Ec). rewrite H. repeat split; auto. }
+  (* the slot joins the list *)
+  cbn [all_slots add_image s_images s_rr].
+  set (rf := remove_first (fun x => slot_id x =? id) absent).
+  assert (Hperm : Permutation (absent ++ s_images s) (rf ++ (s_images s ++ [sl]))).
+  { eapply perm_trans; [apply Permutation_app_tail; apply (remove_first_perm id absent sl Ef)|]. fold rf. cbn [app].
+    eapply perm_trans; [apply Permutation_cons_append|]. rewrite <- app_assoc. apply Permutation_refl. }
+  destruct Hinv as (H1 & H2 & H3 & H4 & H5).
+  assert (Hpos : positions nslots 0 (rf ++ (s_images s ++ [sl])) = positions nslots 0 (absent ++ s_images s))
+    by (symmetry; apply positions_perm; assumption).
+  rewrite Hpos. split; [exact Hsame|]. split; [|split].
+  - unfold st_rel, onext20. rewrite Hupd_a, Hupd_p, find_os_map, Ef. cbn [option_map].
+    assert (os_removed (oslot_of sl) = false) by (destruct sl as [[[[[? ?] ?] ?] ?] ?]; exact Ec). rewrite H.
+    rewrite remove_first_map. unfold add_image. cbn [s_images s_rr]. rewrite map_app. cbn [map]. repeat split; auto.
+  - apply (st_inv_perm nslots absent (s_images s) (s_rr s) bs); [repeat split; assumption|exact Hperm| |assumption].
+    apply Forall_app. split; [assumption|constructor; [assumption|constructor]].
+  - unfold sessions_distinct. cbn [s_images]. eapply sessions_perm; eassumption. Qed.
+
+Lemma image_close_open im : im_closed im = false ->
+  im_pos (image_close im) = im_pos im /\ im_closed (image_close im) = true /\ im_session (image_close im) = im_session im.
+Proof. intros H. unfold image_close. rewrite H. repeat split. Qed.
+
+Theorem sremove_step m nslots ost st id :
+  st_rel ost st -> st_inv nslots st -> sessions_distinct st ->
+  let '(ob, st') := sstep m nslots st (SRemove id) in
+  judge_sop ost (SRemove id) ob = true /\ st_rel (onext20 ost (SRemove id) ob) st' /\ st_inv nslots st' /\ sessions_distinct st'.
+Proof. destruct st as [[absent s] bs]. destruct ost as [[[oa op] orr] spec]. intros (-> & -> & -> & Hspec) Hinv Hnd.
+  unfold sessions_distinct in Hnd. cbn [sstep]. pose proof (st_inv_positions _ _ _ _ Hinv) as Hps.
+  assert (Hsame : judge_sop (map oslot_of absent, map oslot_of (s_images s), s_rr s, spec) (SRemove id)
+                    (Ok 0, [], [], positions nslots 0 (absent ++ s_images s)) = true)
+    by (apply idle_judged; [exact I|assumption|exact Hps]).
+  assert (Hupd_a : update_positions (map oslot_of absent) (positions nslots 0 (absent ++ s_images s)) = map oslot_of absent)
+    by (apply update_positions_same; intros; apply Hps; apply in_or_app; left; assumption).
+  assert (Hupd_p : update_positions (map oslot_of (s_images s)) (positions nslots 0 (absent ++ s_images s)) = map oslot_of (s_images s))
+    by (apply update_positions_same; intros; apply Hps; apply in_or_app; right; assumption).
+  destruct (find_slot id (s_images s)) as [sl|] eqn:Ef.
+  2:{ cbn [all_slots]. split; [exact Hsame|]. split; [|split; assumption].
+      unfold st_rel, onext20. rewrite Hupd_a, Hupd_p, find_os_map, Ef. cbn [option_map]. repeat split; auto. }
+  cbn [all_slots remove_image s_images s_rr].
+  set (rf := remove_first (fun x => slot_id x =? id) (s_images s)).
+  set (slc := slot_with sl (image_close (slot_image sl))).
+  destruct Hinv as (H1 & H2 & H3 & H4 & H5).
+  destruct (find_slot_some _ _ _ Ef) as [Hin Hid].
+  assert (Hopen : im_closed (slot_image sl) = false) by (rewrite Forall_forall in H2; apply H2; assumption).
+  destruct (image_close_open _ Hopen) as (Cp & Cc & Cs).
+  assert (Hslc : slot_id slc = slot_id sl /\ im_pos (slot_image slc) = im_pos (slot_image sl) /\ slot_session slc = slot_session sl
+                 /\ (slot_ok sl -> slot_ok slc)).
+  { unfold slc. destruct sl as [[[[[i b] it] se] sg] im]. cbn [slot_with slot_id slot_image slot_session slot_ok] in *.
+    split; [reflexivity|]. split; [assumption|]. split; [reflexivity|]. intros (A & B & C).
+    split; [assumption|]. split; [congruence|assumption]. }
+  destruct Hslc as (Si & Sp & Ss & Sok).
+  (* old: sl :: X, new: slc :: X with X = absent ++ rf *)
+  assert (Hp_old : Permutation (absent ++ s_images s) (sl :: absent ++ rf)).
+  { eapply perm_trans; [apply Permutation_app_head; apply (remove_first_perm id _ sl Ef)|]. fold rf.
+    apply Permutation_sym. apply Permutation_middle. }
+  assert (Hp_new : Permutation ((absent ++ [slc]) ++ rf) (slc :: absent ++ rf)).
+  { rewrite <- app_assoc. cbn [app]. apply Permutation_sym. apply Permutation_middle. }
+  assert (Hnd_old : NoDup (map slot_id (sl :: absent ++ rf))) by (eapply Permutation_NoDup; [apply Permutation_map; exact Hp_old|assumption]).
+  assert (Hnd_new : NoDup (map slot_id ((absent ++ [slc]) ++ rf))).
+  { eapply Permutation_NoDup; [apply Permutation_map; apply Permutation_sym; exact Hp_new|]. cbn [map] in *. rewrite Si. exact Hnd_old. }
+  assert (Hpos : positions nslots 0 ((absent ++ [slc]) ++ rf) = positions nslots 0 (absent ++ s_images s)).
+  { rewrite (positions_perm nslots _ _ Hp_new Hnd_new), (positions_perm nslots _ _ Hp_old H3). apply positions_head; assumption. }
+  rewrite Hpos. split; [exact Hsame|]. split; [|split].
+  - unfold st_rel, onext20. rewrite Hupd_a, Hupd_p, find_os_map, Ef. cbn [option_map s_images s_rr].
+    rewrite remove_first_map, map_app. cbn [map]. split; [|repeat split; auto]. f_equal. f_equal.
+    unfold slc. destruct sl as [[[[[i b] it] se] sg] im]. cbn [oslot_of slot_with slot_image] in *. rewrite Cp, Cc. reflexivity.
+  - unfold st_inv. cbn [s_images s_rr].
+    assert (HX1 : Forall slot_ok (sl :: absent ++ rf)) by (eapply Permutation_Forall; eassumption).
+    assert (HX4 : Forall (fun x => 0 <= slot_id x < Z.of_nat nslots) (sl :: absent ++ rf)) by (eapply Permutation_Forall; eassumption).
+    inversion HX1; subst. inversion HX4; subst.
+    split; [eapply Permutation_Forall; [apply Permutation_sym; exact Hp_new|constructor; auto]|].
+    split. { (* the remaining images are still open *)
+             assert (Hsub : forall x, In x rf -> In x (s_images s)).
+             { intros x Hx. eapply Permutation_in; [apply Permutation_sym; apply (remove_first_perm _ _ sl Ef)|right; exact Hx]. }
+             apply Forall_forall. intros x Hx. rewrite Forall_forall in H2. apply H2. apply Hsub. assumption. }
+    split; [exact Hnd_new|]. split; [|assumption].
+    eapply Permutation_Forall; [apply Permutation_sym; exact Hp_new|constructor; [rewrite Si; assumption|assumption]].
+  - unfold sessions_distinct. cbn [s_images].
+    eapply Permutation_NoDup; [apply Permutation_map; apply Permutation_sym; exact Hp_new|]. cbn [map]. rewrite Ss.
+    change (slot_session sl :: map slot_session (absent ++ rf)) with (map slot_session (sl :: absent ++ rf)).
+    eapply Permutation_NoDup; [apply Permutation_map; exact Hp_old|assumption]. Qed.
